@@ -2,6 +2,8 @@ import Nstd.Future.RingLemmas
 import Nstd.Future.SimRing
 import Nstd.Future.ProtoLemmas
 import Nstd.Future.Witness
+import Nstd.Future.Safety
+import Nstd.Future.LiveWorker
 /-
   Property C10 — "every Future call runs exactly once and join waits for its result".
 
@@ -10,9 +12,9 @@ import Nstd.Future.Witness
   universally quantified through `Reach`).  The model follows the REPAIRED code for `cfg.repaired = true`
   (fixes/future/0001-0004, fixes/sync/0001) and the original code otherwise.
 
-  This file holds only the property theorems.  Safety theorems hold for both values of `repaired`.
+  This file holds only the property theorems (namespace `Nstd.Future.C10`; the lemma files use `Nstd.Future`).  Safety theorems hold for both values of `repaired`.
 -/
-namespace Nstd.Future
+namespace Nstd.Future.C10
 
 /-! ## The lock-free ring -/
 
@@ -51,6 +53,42 @@ theorem pop_delivers_the_pushed_job {cfg : Config} {s : State} {p : Pool} (h : R
     (htop : th.stack.head? = some (.ring (.popRel x d))) :
     x < p.ring.pushLog.length ∧ d = p.ring.pushLog[x]? ∧ ∃ j, d = some j :=
   ⟨(full_popRel_payload h hp hth htop).1, (full_popRel_payload h hp hth htop).2, full_popRel_some h hp hth htop⟩
+
+/-! ## Exactly once, arguments, record lifetime (full model, every schedule, both code variants) -/
+
+/-- Safety half of "each started call is executed exactly once": the body of a call record runs at most once, only a
+    pool worker runs it, at most one thread is ever inside `proc` for it.  (The other half — it does run — is
+    `join_after_completion`: when a join of that call returns, `execCount = 1`.) -/
+theorem exactly_once {cfg : Config} {s : State} (h : Reach cfg s) (c : Nat) :
+    s.execCount c ≤ 1 ∧
+    (∀ t, executes s t c → ∃ th, s.threads t = some th ∧ th.isWorker = true) ∧
+    (∀ t u, executes s t c → executes s u c → t = u) ∧
+    (s.completed c = true → s.execCount c = 1) :=
+  ⟨exec_at_most_once h c, fun _ he => exec_by_worker h he, fun _ _ ht hu => executor_unique h ht hu,
+   fun hc => completed_exec_once h hc⟩
+
+/-- ... with the arguments given to `start`: what the body was called with is what the call record was created with. -/
+theorem exec_with_start_arguments {cfg : Config} {s : State} (h : Reach cfg s) {c : Nat} {a b : Int}
+    (he : s.execArgs c = some (a, b)) : ∃ r, s.everCalls c = some r ∧ r.a = a ∧ r.b = b :=
+  exec_args_are_start_args h he
+
+/-- The `Call` record is deleted at most once, and while a thread is inside `proc` for it (or the starting client is
+    still inside `startProc` before `run`) the record is alive and unchanged; the model's use-after-delete /
+    double-delete / raw-slot faults never fire (the remaining fault message "no pool" is excluded under `WorkerPool`,
+    see `no_fault_of_workerPool`). -/
+theorem call_record_freed_once_and_alive {cfg : Config} {s : State} (h : Reach cfg s) (c : Nat) :
+    s.freeCount c ≤ 1 ∧
+    (∀ t th fr, s.threads t = some th → fr ∈ th.stack → inProc c fr = true → ∃ r, s.calls c = some r ∧ s.everCalls c = some r) ∧
+    (s.fault = none ∨ s.fault = some "no pool") :=
+  ⟨call_record_freed_once h c, fun _ _ _ hth hfr hp => exec_record_alive h hth hfr hp, no_fault_partial h⟩
+
+/-! ## Liveness, deadlock-freedom form (full model of the REPAIRED code) -/
+
+/-- No lost wake-up on the worker side, for every schedule, any number of threads, any capacity: whenever a job is
+    queued and a worker thread is alive, some thread can take a step. -/
+theorem no_stuck_worker_side {cfg : Config} {s : State} (hrep : cfg.repaired = true) (h : Reach cfg s)
+    (hq : jobQueued s) (hw : ∃ w, liveWorker s w) : ∃ t, enabled s t = true :=
+  Nstd.Future.no_stuck_worker_side hrep h hq hw
 
 /-! ## The sleep / wake protocol (FastSignal), abstract system `Nstd.Future.Proto`
 
@@ -111,4 +149,4 @@ theorem d17_start_never_returns_witness : ∃ sched s, runSched (State.init d17b
     simp only [Bool.and_eq_true] at h
     exact ⟨d17bSched, s, hr, h.1.1.1, h.1.1.2, h.1.2, h.2⟩
 
-end Nstd.Future
+end Nstd.Future.C10
